@@ -26,8 +26,8 @@ def monitor(c):
     # 1. the listing: same set, per layer, nothing executed
     lst = getattr(c, "listing", None)
     if lst is not None:
-        if any(e["ev"] not in ("import", "modimport", "exit") for e in lst.events):
-            return ("--list-tests executed test or layer code: %r" % [e["ev"] for e in lst.events if e["ev"] not in ("import", "modimport", "exit")][:5],
+        if any(e["ev"] not in ("import", "modimport", "modok", "exit") for e in lst.events):
+            return ("--list-tests executed test or layer code: %r" % [e["ev"] for e in lst.events if e["ev"] not in ("import", "modimport", "modok", "exit")][:5],
                     "C03:list-runs")
         lg = cw.listing_groups(w, lst.stdout)
         if sorted((li, tuple(sorted(ts))) for li, ts in lg) != sorted((li, tuple(sorted(ts))) for li, ts in c.groups):
